@@ -12,6 +12,7 @@ import (
 	"fmt"
 	"math"
 	"net"
+	"os"
 	"runtime"
 	"sort"
 	"strings"
@@ -106,11 +107,34 @@ type c15Outcome struct {
 	E2eSeen  []string
 }
 
-func c15Wrap(err error, depth int) error {
-	for i := 0; i < depth; i++ {
-		err = fmt.Errorf("layer %d: %w", i, err)
+// c15TimeoutErr is a net.Error with Timeout() == true that wraps the sentinel.
+type c15TimeoutErr struct{ inner error }
+
+func (e *c15TimeoutErr) Error() string   { return "verif: i/o timeout: " + e.inner.Error() }
+func (e *c15TimeoutErr) Timeout() bool   { return true }
+func (e *c15TimeoutErr) Temporary() bool { return true }
+func (e *c15TimeoutErr) Unwrap() error   { return e.inner }
+
+// c15Wrap dresses the sentinel up as the error kinds a real run produces: plain, wrapped with %w,
+// timeout-flavoured (net.OpError with os.ErrDeadlineExceeded, context.DeadlineExceeded, a net.Error
+// with Timeout()), a closed-handle error. Whatever the kind, a failing run or probe must fail the
+// request and be exposed.
+func c15Wrap(err error, kind int) error {
+	switch kind {
+	case 0, 1, 2:
+		for i := 0; i < kind; i++ {
+			err = fmt.Errorf("layer %d: %w", i, err)
+		}
+		return err
+	case 3:
+		return errors.Join(err, &net.OpError{Op: "read", Net: "ip4", Err: os.ErrDeadlineExceeded})
+	case 4:
+		return fmt.Errorf("probe failed: %w", errors.Join(context.DeadlineExceeded, err))
+	case 5:
+		return fmt.Errorf("read: %w", &c15TimeoutErr{inner: err})
+	default:
+		return fmt.Errorf("handle: %w", errors.Join(err, os.ErrClosed))
 	}
-	return err
 }
 
 // c15Run executes the real RunTraceroute for one case.
@@ -347,7 +371,7 @@ func TestC15(t *testing.T) {
 							Fail: make([]bool, n), NoDest: make([]bool, n), Wrap: make([]int, n)}
 						for i := 0; i < n; i++ {
 							c.Fail[i] = mask>>i&1 == 1
-							c.Wrap[i] = rng.Intn(3)
+							c.Wrap[i] = rng.Intn(7)
 							if i >= nr && !c.Fail[i] && rng.Chance(1, 4) {
 								c.NoDest[i] = true
 							}
@@ -378,7 +402,7 @@ func TestC15(t *testing.T) {
 		pFail := rng.Intn(4) // 0: none fail
 		for k := 0; k < n; k++ {
 			c.Fail[k] = pFail > 0 && rng.Chance(pFail, 8)
-			c.Wrap[k] = rng.Intn(3)
+			c.Wrap[k] = rng.Intn(7)
 			c.NoDest[k] = k >= nr && rng.Chance(1, 5)
 		}
 		cases = append(cases, c)
@@ -392,7 +416,7 @@ func TestC15(t *testing.T) {
 		for k := 0; k < n; k++ {
 			c.Rank[k] = rng.Intn(6)
 			c.Fail[k] = rng.Chance(1, 5)
-			c.Wrap[k] = rng.Intn(3)
+			c.Wrap[k] = rng.Intn(7)
 		}
 		cases = append(cases, c)
 	}
